@@ -13,6 +13,9 @@ def checks_for(hid):
     files = set(re.findall(r'^\+\+\+ b/(\S+)', open(f'{d}/patch.diff').read(), flags=re.M))
     own = hid.split('-')[0]
     ps = [own] + sorted(p for p, a in anch.items() if p != own and a & files)
+    only = os.environ.get('ONLY')
+    if only:
+        ps = [p for p in ps if p in only.split(',')]
     return files, ps
 
 def run(job):
@@ -25,7 +28,9 @@ jobs = []
 meta = {}
 for hid in sys.argv[1:]:
     files, ps = checks_for(hid)
-    meta[hid] = {'id': hid, 'files': sorted(files), 'checks_run': ps, 'results': {}}
+    meta[hid] = {'id': hid, 'files': sorted(files), 'results': {}}
+    if not os.environ.get('ONLY'):
+        meta[hid]['checks_run'] = ps
     jobs += [(hid, p) for p in ps]
 with ThreadPoolExecutor(int(os.environ.get('JOBS', '3'))) as ex:
     for hid, p, line in ex.map(run, jobs):
@@ -35,5 +40,6 @@ with ThreadPoolExecutor(int(os.environ.get('JOBS', '3'))) as ex:
 for hid, m in meta.items():
     f = f'{V}/harmless/{hid}/meta.json'
     old = json.load(open(f)) if os.path.exists(f) else {}
-    old.update(m)
+    res = dict(old.get('results', {})); res.update(m.pop('results'))
+    old.update(m); old['results'] = res
     json.dump(old, open(f, 'w'), indent=1)
